@@ -108,3 +108,48 @@ Example C06_ex :
   /\ rect_ok (0, 0, 2, 2).
 Proof. vm_compute. repeat split; discriminate. Qed.
 Print Assumptions C06_ex.
+
+(* ---- the time-only branch and the two type sets as READ FROM THE SOURCE (Gen/Source.v is
+   regenerated from soundevent/evaluation/affinity.py on every run) ---- *)
+From SE Require Gen.Source Gen.SrcAffinity.
+From SE Require Import Gen.Prelude.
+
+Theorem C06_src_affinity_time : forall g1 g2 s1 l1 e1 h1 s2 l2 e2 h2,
+  py_compute_bounds g1 = Ok (s1, l1, e1, h1) -> py_compute_bounds g2 = Ok (s2, l2, e2, h2) ->
+  exists q, Source.compute_affinity_in_time g1 g2 = Ok q /\ q == affinity_time s1 e1 s2 e2.
+Proof. exact SrcAffinity.src_affinity_time. Qed.
+Print Assumptions C06_src_affinity_time.
+
+Theorem C06_src_time_range : forall g1 g2 s1 l1 e1 h1 s2 l2 e2 h2,
+  py_compute_bounds g1 = Ok (s1, l1, e1, h1) -> py_compute_bounds g2 = Ok (s2, l2, e2, h2) ->
+  s1 <= e1 -> s2 <= e2 ->
+  exists q, Source.compute_affinity_in_time g1 g2 = Ok q /\ 0 <= q /\ q <= 1.
+Proof. exact SrcAffinity.src_time_range. Qed.
+Print Assumptions C06_src_time_range.
+
+Theorem C06_src_time_symmetric : forall g1 g2 s1 l1 e1 h1 s2 l2 e2 h2,
+  py_compute_bounds g1 = Ok (s1, l1, e1, h1) -> py_compute_bounds g2 = Ok (s2, l2, e2, h2) ->
+  exists q q', Source.compute_affinity_in_time g1 g2 = Ok q /\ Source.compute_affinity_in_time g2 g1 = Ok q' /\ q == q'.
+Proof. exact SrcAffinity.src_time_symmetric. Qed.
+Print Assumptions C06_src_time_symmetric.
+
+Theorem C06_src_time_self_one : forall g s l e h,
+  py_compute_bounds g = Ok (s, l, e, h) -> s < e ->
+  exists q, Source.compute_affinity_in_time g g = Ok q /\ q == 1.
+Proof. exact SrcAffinity.src_time_self_one. Qed.
+Print Assumptions C06_src_time_self_one.
+
+Theorem C06_src_time_disjoint_zero : forall g1 g2 s1 l1 e1 h1 s2 l2 e2 h2,
+  py_compute_bounds g1 = Ok (s1, l1, e1, h1) -> py_compute_bounds g2 = Ok (s2, l2, e2, h2) ->
+  (e1 <= s2 \/ e2 <= s1) ->
+  exists q, Source.compute_affinity_in_time g1 g2 = Ok q /\ q == 0.
+Proof. exact SrcAffinity.src_time_disjoint_zero. Qed.
+Print Assumptions C06_src_time_disjoint_zero.
+
+Theorem C06_src_time_types : forall g, type_in g Source.TIME_GEOMETRY_TYPES = is_time_only g.
+Proof. exact SrcAffinity.src_time_types. Qed.
+Print Assumptions C06_src_time_types.
+
+Theorem C06_src_buffer_types : forall g, type_in g Source.BUFFER_GEOMETRY_TYPES = is_buffered_type g.
+Proof. exact SrcAffinity.src_buffer_types. Qed.
+Print Assumptions C06_src_buffer_types.
